@@ -181,7 +181,7 @@ def make_harness(poller_name, n_ops, max_conns=2):
             s = seq(c)
             kinds = [x[0] for x in s]
             late_ops = _late_ops(history, conns.index(c), log, c)
-            w = {'poller': poller_name, 'late_write_or_close': late_ops, 'server_closed': c in server_closed,
+            w = {'poller': poller_name, 'side': 'server', 'late_write_or_close': late_ops, 'server_closed': c in server_closed,
                  'peer': 'rst' if c.peer_rst else 'fin',
                  'closed_by_failed_write': any(x[0] == 'error' and 'BrokenPipe' in str(x[2]) for x in s)}
             if kinds.count('connect') != 1:
@@ -364,7 +364,7 @@ def make_client_harness(poller_name, n_ops):
         kinds = [x[0] for x in log]
         closed_locally = ('close',) in history
         w = {'poller': poller_name, 'side': 'client', 'peer': 'rst' if sock.peer_rst else 'fin', 'closed_locally': closed_locally,
-             'closed_by_failed_write': any(x[0] == 'error' and 'BrokenPipe' in str(x[1]) for x in log)}
+             'closed_by_failed_write': bool(getattr(sock, 'send_failed_epipe', False))}
         detail = 'poller=%s history=%s log=%s' % (poller_name, history, log)
         g.note({'poller': poller_name, 'side': 'client', 'history': [list(map(str, h)) for h in history]})
         if [x for x in log if x[0] == 'exception']:
